@@ -33,8 +33,10 @@ TARGETS = [
     ("reposync", "", "", "reposync a"),
     ("renew", "config roa_weeks=52 roa_reissue=60\n", "", "task renew"),
     ("parentrm", "", "", "parentrm b a"),
+    # the admin removes a publisher at the publication server: two stores (access aggregate, content log)
+    ("pubrm", "", "", "pubrm b"),
 ]
-QUICK_ALWAYS = ["roa", "rollactivate", "cainit"]
+QUICK_ALWAYS = ["roa", "rollactivate", "cainit", "pubrm"]
 # single failed write while the aggregate cache lags one command behind: `<op> ;; <earlier op>` runs the
 # earlier (accepted) command right before the operation with no read in between (domain kvcold)
 STALE_TARGETS = [
@@ -152,7 +154,7 @@ def check(ctx):
         rnd = random.Random(ctx.seed)
         if ctx.tier == "quick":
             names = set(QUICK_ALWAYS) | set(rnd.sample([t[0] for t in TARGETS if t[0] not in QUICK_ALWAYS], 2))
-            plan = [(t, "crash", "kv", "all" if t[0] in ("roa", "cainit") else "sample8") for t in TARGETS if t[0] in names]
+            plan = [(t, "crash", "kv", "all" if t[0] in ("roa", "cainit", "pubrm") else "sample8") for t in TARGETS if t[0] in names]
             plan += [(t, "once", "kv", "sample2") for t in TARGETS if t[0] in names]
             plan += [(FS_TARGETS[0], "crash", "fs", "all"), (rnd.choice(FS_TARGETS[1:]), "crash", "fs", "sample4"),
                      (FS_TARGETS[0], "once", "fs", "sample5"),
